@@ -66,7 +66,7 @@ def prop(pid, **kw):
 
 prop("C01",
      specgen=(40, 500),
-     scripts=lambda tier, rnd: S.basic() + S.collision() + S.stop_points() + S.reaction_table() + S.gated() + S.api_races() + S.two_sessions() + S.pm_busy() +
+     scripts=lambda tier, rnd: S.basic() + S.collision() + S.stop_points() + S.reaction_table() + S.gated() + S.api_races() + S.two_sessions() + S.pm_busy() + S.pm_gates() +
      sample(S.pacing(), rnd, 200 if tier == "thorough" else 30) + S.collision_racy(rnd, 60 if tier == "thorough" else 10) +
      (S.damping() + S.writers() + S.registry(rnd, 120) if tier == "thorough" else sample(S.damping(), rnd, 10)),
      mc=lambda tier: [mc_pair(["openLo", "ka"])] if tier == "quick" else
@@ -79,7 +79,7 @@ prop("C01",
 
 prop("C07",
      specgen=(30, 300),
-     scripts=lambda tier, rnd: S.collision() + [x for x in S.gated() if "collision" in x["tags"]] + S.pm_busy() +
+     scripts=lambda tier, rnd: S.collision() + [x for x in S.gated() if "collision" in x["tags"]] + S.pm_busy() + S.pm_gates() +
      [x for x in S.stop_dial_race(6 if tier == "thorough" else 3) if "-est-" in x["id"]] +
      (S.collision_racy(rnd, 60 if tier == "thorough" else 8)),
      mc=lambda tier: [mc_pair(["openLo", "ka"])] if tier == "quick" else
@@ -104,7 +104,7 @@ prop("C09",
 
 prop("C10",
      specgen=(40, 500),
-     scripts=lambda tier, rnd: S.stop_points() + S.gated() + S.api_races() + S.pm_busy() + S.close_race_connect(12 if tier == "thorough" else 4) + S.stop_dial_race(12 if tier == "thorough" else 3) +
+     scripts=lambda tier, rnd: S.stop_points() + S.gated() + S.api_races() + S.pm_busy() + S.pm_gates() + S.close_race_connect(12 if tier == "thorough" else 4) + S.stop_dial_race(12 if tier == "thorough" else 3) +
      S.stop_everywhere(rnd, 400 if tier == "thorough" else 60),
      mc=lambda tier: [mc_pair(["openLo", "ka"])] if tier == "quick" else
      [mc_pair(["openLo", "ka", "upd"], dials=2), mc_pair(["openHi", "ka", "notif"], dials=2),
@@ -117,7 +117,7 @@ prop("C10",
 
 prop("C12",
      specgen=(30, 400),
-     scripts=lambda tier, rnd: S.damping() + S.damping_exact() + sample(S.fin_mid_message(), rnd, 24 if tier == "thorough" else 8) + (S.damping_matrix() if tier == "thorough" else sample(S.damping_matrix(), rnd, 60)) + S.collision_racy(rnd, 40 if tier == "thorough" else 12) +
+     scripts=lambda tier, rnd: S.damping() + S.damping_exact() + S.pm_gates() + sample(S.fin_mid_message(), rnd, 24 if tier == "thorough" else 8) + (S.damping_matrix() if tier == "thorough" else sample(S.damping_matrix(), rnd, 60)) + S.collision_racy(rnd, 40 if tier == "thorough" else 12) +
      (S.damping_random(rnd, 150) if tier == "thorough" else S.damping_random(rnd, 15)),
      mc=lambda tier: [mc_pair(["openLo", "ka", "notif"])] if tier == "quick" else
      [mc_pair(["openLo", "ka", "notif", "cease"], dials=2), mc_pair(["openLo", "ka", "fault", "openBad"], dials=2)],
@@ -206,7 +206,7 @@ prop("C20",
 prop("C05",
      pure=["big", "deframe", "prefix"],
      specgen=(30, 300),
-     scripts=lambda tier, rnd: S.pm_busy() + S.api_races() + S.close_race_connect(12 if tier == "thorough" else 4) +
+     scripts=lambda tier, rnd: S.pm_busy() + S.pm_gates() + S.api_races() + S.close_race_connect(12 if tier == "thorough" else 4) +
      sample(S.pacing(), rnd, 120 if tier == "thorough" else 25) +
      sample(S.two_sessions(), rnd, 21 if tier == "thorough" else 6) + S.stop_dial_race(2) +
      S.stop_everywhere(rnd, 200 if tier == "thorough" else 25) + S.fuzz(rnd, 400 if tier == "thorough" else 50) + S.message_grid(rnd, 300 if tier == "thorough" else 60) +
